@@ -1,10 +1,11 @@
 #!/bin/sh
 # runs the quick check of each seed's property on a scratch copy of /repo with the seed applied; writes seeded/<id>/detection.json
+# usage: seed_matrix.sh [prefix] [jobs]   (jobs seeds in parallel, default 4)
 cd /verif
-for d in seeded/${1:-}*/; do
-  id=$(basename $d); prop=$(echo $id | cut -d- -f1)
+if [ "$1" = "--one" ]; then
+  d=seeded/$2/; id=$2; prop=$(echo $id | cut -d- -f1)
   W=/tmp/seedrun_$id; rm -rf $W; mkdir -p $W && cp -r /repo/pygradflow $W/
-  if ! (cd $W && patch -p1 -s < /verif/$d/patch.diff) >/dev/null 2>&1; then echo "$id: patch does not apply"; rm -rf $W; continue; fi
+  if ! (cd $W && patch -p1 -s < /verif/$d/patch.diff) >/dev/null 2>&1; then echo "$id: patch does not apply"; rm -rf $W; exit 0; fi
   out=$(PYVC_REPO=$W PYVC_NO_EVIDENCE=1 ./check $prop --tier quick 2>&1); rc=$?
   nv=$(echo "$out" | grep -c "^VIOLATION"); nu=$(echo "$out" | grep -c "^UNDECIDED"); nf=$(echo "$out" | grep "^VIOLATION" | grep -vc "no-failing-input-found")
   first=$(echo "$out" | grep "^VIOLATION" | head -1 | sed 's/.*replay=//' | awk '{print $1}')
@@ -12,4 +13,6 @@ for d in seeded/${1:-}*/; do
   echo "$id: exit=$rc violations=$nv with_input=$nf undecided=$nu first=$ob"
   printf '{"seed": "%s", "property": "%s", "check_exit": %s, "violation_lines": %s, "with_failing_input": %s, "undecided": %s, "first_failed_obligation": "%s"}\n' "$id" "$prop" "$rc" "$nv" "$nf" "$nu" "$ob" > $d/detection.json
   rm -rf $W
-done
+  exit 0
+fi
+ls -d seeded/${1:-}*/ | xargs -n1 basename | xargs -P ${2:-4} -n1 /verif/bin/seed_matrix.sh --one
